@@ -380,9 +380,14 @@ class SFTPFile(BufferedFile):
         self.sftp._log(
             DEBUG, "truncate({}, {!r})".format(hexlify(self.handle), size)
         )
+        # the size change applies to the file as the caller sees it: what was
+        # written goes out first, and nothing read ahead before is kept
+        self.flush()
         attr = SFTPAttributes()
         attr.st_size = size
         self.sftp._request(CMD_FSETSTAT, self.handle, attr)
+        self._realpos = self._pos
+        self._rbuffer = bytes()
 
     def check(self, hash_algorithm, offset=0, length=0, block_size=0):
         """
